@@ -1,7 +1,8 @@
 (* Model of the WSGI side of hio.core.http.serving (src/hio/core/http/serving.py):
    Responder (start / build / write with length clamp / service / reset) and the
    per-connection reuse of one Responder by Server.serviceReqs / serviceReps
-   across pipelined requests, AFTER the fixes 0c426c9 (reset honours chunkable;
+   across pipelined requests, AFTER the fixes 781564a (start leaves .chunkable alone, build chunks
+   only while no Content-Length is in force), 0c426c9 (reset honours chunkable;
    serviceReqs passes it on reuse) and a0b4364 (serviceReps looks at the
    requestant only while it has not been re-armed).
 
@@ -116,19 +117,26 @@ Definition reset (r : rstate) (ck : option bool) : rstate :=
      started := false; headed := false; chunked := false; ended := false;
      status := s_200; headers := []; length_ := None; size := 0 |}.
 
-(* Responder.start without exc_info *)
-Definition start (r : rstate) (st : bytes) (hs : list header) : res rstate :=
-  if started r then Exc AssertErr else
+(* Responder.start(status, headers, exc_info): [again] = exc_info given (PEP 3333 replacement of a
+   response whose head was not sent yet; once it was sent the application's exception is re-raised).
+   Status, headers and the derived length are replaced as a whole; .chunkable (what the connection
+   allows) is not touched. *)
+Definition start_core (r : rstate) (st : bytes) (hs : list header) : res rstate :=
   match hfind s_content_length hs with
   | Some v =>
     match parse_dec v with
-    | Some n => Ok {| chunkable := false; started := true; headed := headed r; chunked := chunked r;
+    | Some n => Ok {| chunkable := chunkable r; started := true; headed := headed r; chunked := chunked r;
                       ended := ended r; status := st; headers := hs; length_ := Some n; size := size r |}
     | None => Exc ValueErr
     end
   | None => Ok {| chunkable := chunkable r; started := true; headed := headed r; chunked := chunked r;
                   ended := ended r; status := st; headers := hs; length_ := None; size := size r |}
   end.
+Definition start (r : rstate) (st : bytes) (hs : list header) (again : bool) : res rstate :=
+  if again then (if headed r then Exc OtherErr else start_core r st hs)
+  else if started r then Exc AssertErr else start_core r st hs.
+
+Definition is_none {A} (o : option A) : bool := match o with None => true | Some _ => false end.
 
 Definition header_line (h : header) : bytes := title (fst h) ++ s_colon_sp ++ snd h ++ crlf.
 
@@ -143,7 +151,7 @@ Definition built_headers (date : bytes) (ck : bool) (hs : list header) : list he
   (if ch then hset s_transfer_encoding s_chunked hs2 else hs2, ch).
 
 Definition build (date : bytes) (r : rstate) : rstate * bytes :=
-  let (hs, ch) := built_headers date (chunkable r) (headers r) in
+  let (hs, ch) := built_headers date (chunkable r && is_none (length_ r)) (headers r) in
   ({| chunkable := chunkable r; started := started r; headed := headed r;
       chunked := if ch then true else chunked r; ended := ended r;
       status := status r; headers := hs; length_ := length_ r; size := size r |},
@@ -206,7 +214,8 @@ Fixpoint run_pieces (date : bytes) (r : rstate) (ps : list bytes) : res (rstate 
 Record req := { r_v11 : bool;            (* HTTP/1.1 (or 1.x, x >= 1) vs HTTP/1.0 *)
                 r_conn : option bytes;   (* Connection header value *)
                 r_ok : bool }.           (* false: unusable Content-Length -> HTTPException *)
-Record app := { a_status : bytes; a_headers : list header; a_pieces : list bytes }.
+Record app := { a_status : bytes; a_headers : list header; a_pieces : list bytes;
+                a_first : option (bytes * list header) }.   (* an abandoned first start_response call *)
 
 (* Requestant.checkPersisted (for requests whose framing is valid) *)
 Definition persisted (q : req) : bool :=
@@ -223,7 +232,14 @@ Fixpoint serve (date : bytes) (rs : option rstate) (conn : list (req * app)) : r
     if negb (r_ok q) then Ok ([], true) else
     let ck := r_v11 q in
     let r0 := match rs with None => init ck | Some r => reset r (Some ck) end in
-    match start r0 (a_status a) (a_headers a) with
+    match (match a_first a with
+           | None => start r0 (a_status a) (a_headers a) false
+           | Some (st1, hs1) =>
+             match start r0 st1 hs1 false with
+             | Ok r0' => start r0' (a_status a) (a_headers a) true
+             | Exc k => Exc k
+             end
+           end) with
     | Exc k => Exc k
     | Ok r1 =>
       match run_pieces date r1 (a_pieces a) with
@@ -417,8 +433,16 @@ Definition wf_value (v : bytes) : bool := no_crlf v && bytes_eqb (strip_ows v) v
 Definition wf_header (h : header) : bool :=
   wf_name (fst h) && wf_value (snd h) && negb (name_is s_transfer_encoding h).
 Definition total (a : app) : N := len (List.concat (a_pieces a)).
+Definition first_ok (a : app) : bool :=
+  match a_first a with
+  | None => true
+  | Some (_, hs1) => match hfind s_content_length hs1 with
+                     | None => true
+                     | Some v => negb (is_none (parse_dec v))
+                     end
+  end.
 Definition wf_app (a : app) : bool :=
-  no_crlf (a_status a) && forallb wf_header (a_headers a) &&
+  first_ok a && no_crlf (a_status a) && forallb wf_header (a_headers a) &&
   match hfind s_content_length (a_headers a) with
   | None => true
   | Some v => match parse_dec v with Some n => n <=? total a | None => false end
@@ -467,13 +491,15 @@ Definition check_case (c : case) : bool :=
 (* branch ids, per request of a case:
    0 malformed request closes   1 length-framed exact   2 length-framed clamped
    3 chunked   4 unframed then closed   5 unframed on a kept connection (D21b)
-   6 responder created   7 responder reused   8 request after the close (unanswered) *)
-Definition n_branches : nat := 9.
+   6 responder created   7 responder reused   8 request after the close (unanswered)
+   9 response replaced by a second start_response call *)
+Definition n_branches : nat := 10.
 Fixpoint branches (first : bool) (conn : list (req * app)) : list nat :=
   match conn with
   | [] => []
   | (q, a) :: rest =>
     if negb (r_ok q) then 0%nat :: List.map (fun _ => 8%nat) rest else
+    (match a_first a with Some _ => [9%nat] | None => [] end) ++
     (if first then 6%nat else 7%nat) ::
     (match declared a with
      | Some n => if n <? total a then 2%nat else 1%nat
